@@ -86,6 +86,18 @@ class DBM:
         self.add(x, y, c)
         self.add(y, x, -c)
 
+    def shift_range(self, x, lo, hi):
+        """x := x + k for some lo <= k <= hi"""
+        if self.bottom:
+            return
+        m = self.m
+        for k in range(self.n):
+            if k != x:
+                if m[x][k] != INF:
+                    m[x][k] += hi
+                if m[k][x] != INF:
+                    m[k][x] -= lo
+
     def join(self, o):
         if self.bottom:
             return o.copy()
@@ -417,7 +429,10 @@ class Analysis:
                 target = self.base_local(e[1], env)
             if target is not None:
                 lv = self.len_of_local[target]
-                if name == "push" and i == 0:
+                if name == "push" and i == 0 and ("String" in callee or "string" in callee):
+                    d.shift_range(lv, 1, 4)       # a char is 1..4 bytes of UTF-8
+                    d.add(lv, 0, MAXLEN)
+                elif name == "push" and i == 0:
                     d.assign(lv, lv, 1)
                     d.add(lv, 0, MAXLEN)          # a Vec never exceeds isize::MAX elements (push would abort on capacity overflow)
                 elif name in ("clear",) and i == 0:
@@ -585,6 +600,15 @@ class Analysis:
                         visits[succ] += 1
                         if visits[succ] > 2:
                             nd = od.widen(nd)
+                            # type invariants survive widening: a length is within [0, isize::MAX], an unsigned within its width
+                            # (and what is tied to a length by a kept difference bound is bounded through it)
+                            for lv in self.len_of_local.values():
+                                nd.add(0, lv, 0)
+                                nd.add(lv, 0, MAXLEN)
+                                if not nd.bottom:
+                                    for a_ in range(nd.n):
+                                        if a_ != lv and nd.m[a_][lv] != INF and nd.m[a_][lv] + MAXLEN < nd.m[a_][0]:
+                                            nd.m[a_][0] = nd.m[a_][lv] + MAXLEN
                     changed = not nd.leq(od) or len(nenv) != len(oenv)
                     if changed:
                         instate[succ] = (nd, nenv)
